@@ -163,7 +163,7 @@ void h_erase_hetero(void) { ARB(v); VF_INPUT(long long, xl); VF_INPUT(unsigned, 
   unsigned long r = uns ? v_erase_value_u(&v, &xu) : v_erase_value_ll(&v, &xl);
   VF_ASSERT(WF(v) && view_eq(view_of(&v), e), "erase(c, value of another integer type): exactly the elements with e == value (usual arithmetic conversions, no narrowing of the value) are removed");
   VF_ASSERT(r == o.n - e.n, "erase returns the number of removed elements"); VF_REACH(); }
-/*@GROUP name=erase_hetero_d props=C01,C02 kind=K unwind=9 cost=4 when=(VF_N>0)*(VF_N<=8) tier=thorough timeout=1500@*/
+/*@GROUP name=erase_hetero_d props=C01,C02 kind=K unwind=9 cost=4 when=(VF_N>0)*(VF_N<=4) tier=thorough timeout=3000@*/
 void h_erase_hetero_d(void) { ARB(v); VF_INPUT(double, xd); view_t o = view_of(&v); view_t e; e.n = 0;
   for (int i = 0; i < N; ++i) if ((unsigned long)i < o.n) { if (!((double)o.a[i] == xd)) { e.a[e.n] = o.a[i]; ++e.n; } }
   unsigned long r = v_erase_value_d(&v, &xd);
